@@ -63,7 +63,13 @@ def main():
     if a.replay:
         rec = json.load(open(a.replay))
         ctx.log("replaying", a.replay, "key=", rec.get("key"))
-        mod.replay(ctx, rec["case"])
+        if isinstance(rec["case"], dict) and rec["case"].get("kind") == "exception":
+            print("replay: this violation was an exception inside a worker chunk; re-running the whole check")
+            mod.run(ctx)
+        else:
+            from mc.core import guarded
+
+            guarded(lambda part, chunk: mod.replay(part, chunk), ctx, rec["case"], {})
         # a replay reports only the failure it was asked about (or any, if it changed key)
         rc, _ = ctx.finish(replay_mode=True)
         if rc == 0:
